@@ -51,6 +51,7 @@ type P struct {
 	sumMemo  map[string]bool
 	sumBusy  map[string]bool
 	borrowed map[string]*R
+	running  map[string]bool
 }
 
 func loadConfig(dir string, cfg BuildConfig) (*P, error) {
